@@ -418,6 +418,27 @@ def exec_history(case):
                         exp = empty_buffer_array(mode, 256, 256)
                         if got.shape != exp.shape or got.dtype != exp.dtype or not arrays_equal(got, exp):
                             raise Violation("missing-tile", f"{what}: default='masked' did not give an all-undefined 256x256 {mode} buffer (shape {got.shape}, dtype {got.dtype})")
+            elif kind == "copy":
+                # a stored tile is read and written again as it is, at another (or the same) position: what tools that
+                # re-arrange or re-save a pyramid do; the image object handed to write_image is the one read_image returned
+                q = POSITIONS[op["to"] % len(POSITIONS)]
+                with toasty_call("write", what + f" -> {q}"):
+                    img = pio.read_image(Pos(*p), default="none", **fkw)
+                    if img is not None:
+                        pio.write_image(Pos(*q), img, **fkw)
+                if (img is None) != (p not in model):
+                    raise Violation("missing-tile" if img is not None else "read-back", f"{what}: read_image returned {'an image' if img is not None else 'None'} for a tile that is {'stored' if p in model else 'absent'}")
+                if p in model:
+                    model[q] = model[p]
+            elif kind == "update_noop":
+                # a read-modify-write whose body changes nothing
+                with toasty_call("update", what):
+                    with pio.update_image(Pos(*p), masked_mode=mode_of(mode), default="masked", **fkw) as basis:
+                        pass
+                if p not in model and not fully_undefined(bmode, empty_buffer_array(mode, 256, 256)):
+                    # (integer tiles cannot say "entirely undefined": the all-zero buffer made for the absent tile is stored, as for
+                    # any other read-modify-write of such a tile)
+                    model[p] = empty_buffer_array(mode, 256, 256)
             elif kind == "update":
                 # only on maskable tiles: absent, or stored in the buffer's pixel format
                 if p in model and model[p].shape != empty_buffer_array(mode, 1, 1).shape[:0] + (256, 256) + empty_buffer_array(mode, 1, 1).shape[2:]:
@@ -470,8 +491,10 @@ def strat_history(draw, tier):
     mode = draw(st.sampled_from(FORMAT_MODES[fmt]))
     ops = []
     for _ in range(draw(st.integers(1, 8 if tier == "quick" else 14))):
-        kind = draw(st.sampled_from(["write", "write_buffer", "read", "update", "update", "external"]))
+        kind = draw(st.sampled_from(["write", "write_buffer", "read", "update", "update", "external", "copy", "update_noop"]))
         op = {"op": kind, "pos": draw(st.integers(0, 3))}
+        if kind == "copy":
+            op["to"] = draw(st.integers(0, 3))
         if kind in ("write", "write_buffer", "update"):
             op["salt"] = draw(st.integers(0, 30))
             op["content"] = draw(st.sampled_from(["defined", "partial", "masked", "masked", "infonly"] + (["black", "black"] if mode in ("RGB", "RGBA") else [])))
